@@ -1,7 +1,7 @@
 (* Invariants of the reachable states of model/Teardown.v and the step-level facts behind the
    theorems of C04 and C06. *)
 From Coq Require Import FinFun.
-From Verif Require Import Common Ownership Ownership_proofs Teardown Teardown_proofs OwnSpec.
+From Verif Require Import Gen_AcqRoster Common Ownership Ownership_proofs Teardown Teardown_proofs OwnSpec.
 Open Scope N_scope.
 
 (* ------------------------------------------------------------------ what a request for [e] may do to the listing *)
@@ -414,6 +414,45 @@ Proof.
     + apply Hnew, Ht.
 Qed.
 
+(* the same for launched tasks that never got a parent (a deployment that failed) *)
+Lemma inv_launch_unowned s e d x new :
+  inv s -> In (e, d) (s_snaps s) -> e_id x = e ->
+  NoDup (map t_id new) ->
+  (forall t, In t new -> t_owner t = None /\ fst (t_id t) = e) ->
+  inv (mkSt (s_envs s ++ [x]) (s_roster s ++ new) (remove_snap e (s_snaps s))).
+Proof.
+  intros I Hp Ex Hnd Hnew.
+  assert (Rfree : forall t, In t (s_roster s) -> fst (t_id t) <> e).
+  { intros t Ht. apply (inv_snap_r s I (e, d) t Hp Ht). }
+  assert (Efree : forall y, In y (s_envs s) -> e_id y <> e).
+  { intros y Hy. apply (inv_snap_e s I (e, d) y Hp Hy). }
+  constructor; cbn [s_roster s_envs s_snaps].
+  - rewrite map_app. apply nodup_app; [apply I|exact Hnd|].
+    intros k H1 H2. apply in_map_iff in H1. destruct H1 as [t1 [E1 T1]].
+    apply in_map_iff in H2. destruct H2 as [t2 [E2 T2]].
+    apply (Rfree t1 T1). rewrite E1, <- E2. apply Hnew, T2.
+  - intros t e' Hin Ho. apply in_app_or in Hin. destruct Hin as [Hin|Hin].
+    + eapply inv_owner; eauto.
+    + destruct (Hnew t Hin) as [Ho' _]. congruence.
+  - intros p t Hp' Hin. apply remove_snap_In in Hp'. destruct Hp' as [Hp1 Hp2].
+    apply in_app_or in Hin. destruct Hin as [Hin|Hin].
+    + eapply inv_snap_r; eauto.
+    + destruct (Hnew t Hin) as [_ ->]. auto.
+  - intros p y Hp' Hin. apply remove_snap_In in Hp'. destruct Hp' as [Hp1 Hp2].
+    apply in_app_or in Hin. destruct Hin as [Hin|[<-|[]]].
+    + eapply inv_snap_e; eauto.
+    + rewrite Ex. auto.
+  - rewrite map_app. apply nodup_app; [apply I|cbn; constructor; [tauto|constructor]|].
+    intros k H1 [<-|[]]. apply in_map_iff in H1. destruct H1 as [y [E1 Y1]].
+    apply (Efree y Y1). congruence.
+  - intros y t Hy Ht Ho. apply in_app_or in Hy. apply in_app_or in Ht.
+    destruct Hy as [Hy|[<-|[]]], Ht as [Ht|Ht].
+    + eapply inv_bound; eauto.
+    + exfalso. destruct (Hnew t Ht) as [Ho' _]. congruence.
+    + exfalso. apply (Rfree t Ht). rewrite (inv_owner s I t _ Ht Ho). exact Ex.
+    + exfalso. destruct (Hnew t Ht) as [Ho' _]. congruence.
+Qed.
+
 Lemma inv_remove_snap s e : inv s -> inv (mkSt (s_envs s) (s_roster s) (remove_snap e (s_snaps s))).
 Proof.
   intro I. constructor; cbn [s_roster s_envs s_snaps]; try apply I.
@@ -437,7 +476,6 @@ Qed.
 (* a request for [e], seen from everybody else: [new] are the tasks launched for [e] on the way *)
 Definition framed (e : N) (s s' : st) (u : out) : Prop :=
   exists new,
-    (forall t, In t new -> t_owner t = Some e /\ fst (t_id t) = e /\ t_idok t = true) /\
     NoDup (map t_id (s_roster s ++ new)) /\
     emoves e (s_roster s ++ new) (s_roster s') /\
     envs_kept e (s_envs s) (s_envs s') /\
@@ -445,13 +483,40 @@ Definition framed (e : N) (s s' : st) (u : out) : Prop :=
 
 Lemma good_framed e s s' u : inv s -> good e s s' (ks u) -> framed e s s' u.
 Proof.
-  intros I [A [B [C D]]]. exists []. rewrite app_nil_r. split; [intros t []|]. repeat split; auto.
+  intros I [A [B [C D]]]. exists []. rewrite app_nil_r. repeat split; auto.
   - apply I.
   - apply lmoves_kept, B.
 Qed.
 
+(* the three frame facts themselves; they compose *)
+Definition framed2 (e : N) (s s' : st) (u : out) : Prop :=
+  (forall t e', In t (s_roster s) -> t_owner t = Some e' -> t_idok t = true -> e' <> e -> In t (s_roster s')) /\
+  (forall k, In k (ks u) -> forall t e', In t (s_roster s) -> t_id t = k -> t_owner t = Some e' ->
+                                         t_idok t = true -> e' = e) /\
+  envs_kept e (s_envs s) (s_envs s').
+
+Lemma framed_framed2 e s s' u : framed e s s' u -> framed2 e s s' u.
+Proof.
+  intros [new [Hnd [Hm [Hk Ht]]]]. repeat split; auto.
+  - intros t e' Hin Ho Hok Hne. eapply emoves_keep; [exact Hm|apply in_or_app; left; exact Hin| |].
+    + eapply locked_intro; eauto.
+    + eapply owner_is_other; eauto.
+  - intros k Hin t e' Ht0 Eid Ho Hok.
+    eapply (touched_ok e (s_roster s ++ new) k Hnd (Ht k Hin) t e'); auto. apply in_or_app. left. exact Ht0.
+Qed.
+
+Lemma framed2_seq e s s1 s2 u1 u2 :
+  framed2 e s s1 u1 -> framed2 e s1 s2 u2 -> framed2 e s s2 (out_seq u1 u2).
+Proof.
+  intros [A1 [B1 C1]] [A2 [B2 C2]]. repeat split.
+  - intros t e' Hin Ho Hok Hne. eapply A2; eauto.
+  - intros k Hk t e' Hin Eid Ho Hok. apply ks_out_seq in Hk. apply in_app_or in Hk. destruct Hk as [Hk|Hk].
+    + eapply B1; eauto.
+    + destruct (N.eq_dec e' e) as [|Hne]; [assumption|]. eapply B2; eauto.
+  - eapply envs_kept_trans; eauto.
+Qed.
+
 Lemma framed_mid e s sm s' new u K :
-  (forall t, In t new -> t_owner t = Some e /\ fst (t_id t) = e /\ t_idok t = true) ->
   NoDup (map t_id (s_roster s ++ new)) ->
   emoves e (s_roster s ++ new) (s_roster sm) ->
   envs_kept e (s_envs s) (s_envs sm) ->
@@ -459,7 +524,7 @@ Lemma framed_mid e s sm s' new u K :
   (forall k, In k (ks u) -> In k K \/ touched e (s_roster s ++ new) k) ->
   framed e s s' u.
 Proof.
-  intros Hn Hnd Hm He [A [B [C D]]] Hk. exists new. split; [exact Hn|]. repeat split; auto.
+  intros Hnd Hm He [A [B [C D]]] Hk. exists new. repeat split; auto.
   - eapply emoves_trans; eauto.
   - eapply envs_kept_trans; [exact He|apply lmoves_kept, B].
   - intros k Hin. destruct (Hk k Hin) as [H|H]; [|exact H].
@@ -479,7 +544,7 @@ Proof.
   set (s0 := mkSt (s_envs s) (s_roster s) (remove_snap e (s_snaps s))).
   assert (I0 : inv s0) by (apply inv_remove_snap, I).
   assert (F0 : framed e s s0 (out_rc 1)).
-  { exists []. rewrite app_nil_r. split; [intros t []|]. repeat split; [apply I|constructor|apply envs_kept_refl|intros k []]. }
+  { exists []. rewrite app_nil_r. repeat split; [apply I|constructor|apply envs_kept_refl|intros k []]. }
   destruct (N.leb 1 (c_fail c) && N.leb (c_fail c) 3).
   { intro H; injection H as <- <-. auto. }
   destruct (existsb _ (c_dets c)).
@@ -494,9 +559,32 @@ Proof.
     { pose proof (inv_launch s e snapdets xe [] I Ea eq_refl) as L. rewrite app_nil_r in L.
       apply L; [constructor|intros t []]. }
     split; [eapply good_inv; eauto|].
-    eapply (framed_mid e s _ s2 []); [intros t []|rewrite app_nil_r; apply I| | |exact G|].
+    eapply (framed_mid e s _ s2 []); [rewrite app_nil_r; apply I| | |exact G|].
     - rewrite app_nil_r. constructor.
     - cbn [with_envs s_envs s0]. apply envs_kept_app.
+    - intros k Hk. unfold ks in Hk. rewrite Ecm, app_nil_r in Hk. left. exact Hk. }
+  destruct (N.eqb (c_fail c) 6).
+  { (* partial deployment failure: the last attempt's tasks enter the roster unowned *)
+    set (xe := set_estate ES_ERROR (leave_upd ES_STANDBY (leave_upd ES_STANDBY x0))).
+    set (last := if acq_roster_unconditional then _ else []).
+    destruct (create_tail xe _ [] _) as [s2 u2] eqn:Ec. intro H; injection H as <- <-.
+    apply create_tail_good in Ec. destruct Ec as [G Ecm]. change (e_id xe) with e in G.
+    assert (Hlast : forall t, In t last -> t_owner t = None /\ fst (t_id t) = e).
+    { unfold last. destruct acq_roster_unconditional; [|intros t []]. intros t Ht.
+      apply in_map_iff in Ht. destruct Ht as [ir [<- _]]. split; reflexivity. }
+    assert (Hnd : NoDup (map t_id last)).
+    { unfold last. destruct acq_roster_unconditional; [|constructor]. rewrite map_map.
+      rewrite (map_ext _ (fun ir : N * role => tid_of e (fst ir + 2 * Nlen (c_roles c)))) by (intro; reflexivity).
+      rewrite <- (map_map fst (fun i => tid_of e (i + 2 * Nlen (c_roles c)))).
+      apply FinFun.Injective_map_NoDup.
+      - intros a b E. unfold tid_of in E. injection E as E. lia.
+      - unfold task_iroles, iroles. apply nodup_filter_map. apply index_from_nodup. }
+    assert (Im : inv (mkSt (s_envs s0 ++ [xe]) (s_roster s0 ++ last) (s_snaps s0))).
+    { apply (inv_launch_unowned s e snapdets xe last I Ea eq_refl Hnd Hlast). }
+    split; [eapply good_inv; eauto|].
+    eapply (framed_mid e s _ s2 last); [apply (inv_nodup _ Im)| | |exact G|].
+    - cbn [s_roster s0]. constructor.
+    - cbn [s_envs s0]. apply envs_kept_app.
     - intros k Hk. unfold ks in Hk. rewrite Ecm, app_nil_r in Hk. left. exact Hk. }
   set (x1 := set_bound x0).
   set (new := map (launch_task e) (task_iroles x1)).
@@ -523,7 +611,7 @@ Proof.
     destruct (create_tail xe _ [] _) as [s2 u2] eqn:Ec. intro H; injection H as <- <-.
     apply create_tail_good in Ec. destruct Ec as [G Ecm]. change (e_id xe) with e in G.
     split; [eapply good_inv; [|exact G]; apply (IL xe); reflexivity|].
-    eapply (framed_mid e s _ s2 new); [exact HnewO|exact NDall| | |exact G|].
+    eapply (framed_mid e s _ s2 new); [exact NDall| | |exact G|].
     - cbn [s_roster s0]. constructor.
     - cbn [s_envs s0]. apply envs_kept_app.
     - intros k Hk. unfold ks in Hk. rewrite Ecm, app_nil_r in Hk. left. exact Hk. }
@@ -547,14 +635,14 @@ Proof.
     destruct (create_tail xe _ targets _) as [s2 u2] eqn:Ec. intro H; injection H as <- <-.
     apply create_tail_good in Ec. destruct Ec as [G Ecm]. change (e_id xe) with e in G.
     split; [eapply good_inv; [|exact G]; apply (I2 xe); reflexivity|].
-    eapply (framed_mid e s _ s2 new); [exact HnewO|exact NDall| | |exact G|].
+    eapply (framed_mid e s _ s2 new); [exact NDall| | |exact G|].
     - cbn [s_roster]. constructor. constructor.
     - cbn [s_envs s0]. apply envs_kept_app.
     - intros k Hk. unfold ks in Hk. rewrite Ecm in Hk. apply in_app_or in Hk.
       destruct Hk as [Hk|Hk]; [left; exact Hk|right; apply Tt, Hk]. }
   intro H; injection H as <- <-.
   split; [apply (I2 (set_estate ES_CONFIGURED x2)); reflexivity|].
-  eapply (framed_mid e s _ _ new); [exact HnewO|exact NDall| | |apply good_refl|].
+  eapply (framed_mid e s _ _ new); [exact NDall| | |apply good_refl|].
   - cbn [s_roster]. constructor. constructor.
   - cbn [s_envs s0]. apply envs_kept_app.
   - intros k Hk. unfold ks in Hk. cbn [o_kills o_cmds app] in Hk. right. apply Tt, Hk.
@@ -638,9 +726,20 @@ Qed.
 
 Definition frame_of (o : op) (s s' : st) (u : out) : Prop :=
   match op_env o with
-  | Some e => framed e s s' u
-  | None => forall e, framed e s s' u
+  | Some e => framed2 e s s' u
+  | None => forall e, framed2 e s s' u
   end.
+
+Lemma snap_framed2 e e0 s s' u :
+  inv s -> usedb s e = false -> snap e false s = (s', u) -> framed2 e0 s s' u.
+Proof.
+  intros I W H. destruct (snap_spec e s s' u I W H) as [I' [Hc [Hk [Hr He]]]].
+  apply framed_framed2. exists []. rewrite app_nil_r. repeat split.
+  - apply I.
+  - rewrite Hr. constructor. constructor.
+  - rewrite He. apply envs_kept_refl.
+  - intros k Hin. unfold ks in Hin. rewrite Hc, app_nil_r, Hk in Hin. apply cleanup_touched, Hin.
+Qed.
 
 Lemma step_spec s o s' u :
   inv s -> wf_op s o = true -> step s o = (s', u) ->
@@ -651,48 +750,28 @@ Proof.
   - (* OSnap *)
     apply negb_true_iff in W. destruct missing.
     { unfold snap. intro H; injection H as <- <-. split; [exact I|]. intros _.
-      apply good_framed; [exact I|apply good_refl]. }
-    intro H. destruct (snap_spec e s s' u I W H) as [I' [Hc [Hk [Hr He]]]]. split; [exact I'|].
-    intros _. exists []. rewrite app_nil_r. split; [intros t []|]. repeat split.
-    + apply I.
-    + rewrite Hr. constructor. constructor.
-    + rewrite He. apply envs_kept_refl.
-    + intros k Hin. unfold ks in Hin. rewrite Hc, app_nil_r, Hk in Hin. apply cleanup_touched, Hin.
+      apply framed_framed2, good_framed; [exact I|apply good_refl]. }
+    intro H. split; [apply (snap_spec e s s' u I W H)|]. intros _. eapply snap_framed2; eauto.
   - (* OFinish *)
-    intro H. destruct (finish_spec e c s s' u I H) as [I' F]. auto.
+    intro H. destruct (finish_spec e c s s' u I H) as [I' F]. split; [exact I'|]. intros _.
+    apply framed_framed2, F.
   - (* OCreate *)
     apply andb_true_iff in W. destruct W as [W _]. apply negb_true_iff in W.
     destruct (N.eqb (c_fail c) 1).
     { unfold snap. intro H; injection H as <- <-. split; [exact I|]. intros _.
-      apply good_framed; [exact I|apply good_refl]. }
+      apply framed_framed2, good_framed; [exact I|apply good_refl]. }
     destruct (snap e false s) as [s1 o1] eqn:Es.
     destruct (finish e c s1) as [s2 o2] eqn:Ef. intro H; injection H as <- <-.
-    destruct (snap_spec e s s1 o1 I W Es) as [I1 [Hc [Hk [Hr He]]]].
-    destruct (finish_spec e c s1 s2 o2 I1 Ef) as [I2 [new [Hn [Hnd [Hm [Hke Hkt]]]]]].
+    destruct (snap_spec e s s1 o1 I W Es) as [I1 _].
+    destruct (finish_spec e c s1 s2 o2 I1 Ef) as [I2 F2].
     split; [exact I2|]. intros _.
-    apply usedb_false in W. destruct W as [U1 [U2 U3]].
-    assert (Hl : forall t, In t new -> is_locked t = true).
-    { intros t Ht. destruct (Hn t Ht) as [A1 [A2 A3]]. eapply locked_intro; eauto. }
-    assert (Ecl : cleanup (s_roster s ++ new) = (s_roster s1 ++ new, o_kills o1)).
-    { rewrite cleanup_app_locked by exact Hl. rewrite Hr, Hk. reflexivity. }
-    assert (M0 : emoves e (s_roster s ++ new) (s_roster s1 ++ new)).
-    { replace (s_roster s1 ++ new) with (fst (cleanup (s_roster s ++ new))) by (rewrite Ecl; reflexivity).
-      constructor. constructor. }
-    exists new. split; [exact Hn|]. repeat split.
-    + rewrite map_app. apply nodup_app; [apply I| |].
-      * rewrite map_app in Hnd. apply nodup_app_r in Hnd. exact Hnd.
-      * intros k H1 H2. apply in_map_iff in H1. destruct H1 as [t1 [E1 T1]].
-        apply in_map_iff in H2. destruct H2 as [t2 [E2 T2]].
-        apply (U2 t1 T1). rewrite E1, <- E2. apply Hn, T2.
-    + eapply emoves_trans; eauto.
-    + rewrite <- He. exact Hke.
-    + intros k Hin. apply ks_out_seq in Hin. apply in_app_or in Hin. destruct Hin as [Hin|Hin].
-      * unfold ks in Hin. rewrite Hc, app_nil_r in Hin. apply cleanup_touched. rewrite Ecl. exact Hin.
-      * eapply touched_mono; [exact M0|]. apply Hkt, Hin.
+    eapply framed2_seq; [eapply snap_framed2; eauto|apply framed_framed2, F2].
   - (* OControl *)
-    intro H. apply control_good in H. split; [eapply good_inv; eauto|]. intros _. apply good_framed; auto.
+    intro H. apply control_good in H. split; [eapply good_inv; eauto|]. intros _.
+    apply framed_framed2, good_framed; auto.
   - (* ODestroy *)
-    intro H. apply destroy_good in H. split; [eapply good_inv; eauto|]. intros _. apply good_framed; auto.
+    intro H. apply destroy_good in H. split; [eapply good_inv; eauto|]. intros _.
+    apply framed_framed2, good_framed; auto.
   - (* OCleanup *)
     destruct (cleanup (s_roster s)) as [r' k] eqn:Ec. intro H; injection H as <- <-.
     assert (G : forall e, good e s (with_roster s r') (ks (mkOut 0 k [] [] [] 0 []))).
@@ -700,7 +779,7 @@ Proof.
       apply good_mk; [|constructor|].
       - replace r' with (fst (cleanup (s_roster s))) by (rewrite Ec; reflexivity). constructor. constructor.
       - intros x Hx. apply cleanup_touched. rewrite Ec. exact Hx. }
-    split; [eapply good_inv; [exact I|apply (G 0)]|]. intros _ e. apply good_framed; auto.
+    split; [eapply good_inv; [exact I|apply (G 0)]|]. intros _ e. apply framed_framed2, good_framed; auto.
   - (* OKill *)
     destruct (kill_tasks ids (s_roster s)) as [r' k] eqn:Ec. intro H; injection H as <- <-.
     assert (G : forall e, good e s (with_roster s r') (ks (mkOut 0 k [] [] [] 0 []))).
@@ -708,7 +787,7 @@ Proof.
       apply good_mk; [|constructor|].
       - replace r' with (fst (kill_tasks ids (s_roster s))) by (rewrite Ec; reflexivity). constructor. constructor.
       - intros x Hx. eapply kill_touched. rewrite Ec. exact Hx. }
-    split; [eapply good_inv; [exact I|apply (G 0)]|]. intros _ e. apply good_framed; auto.
+    split; [eapply good_inv; [exact I|apply (G 0)]|]. intros _ e. apply framed_framed2, good_framed; auto.
   - (* ODies *)
     intro H; injection H as <- <-. split; [apply dies_inv, I|discriminate].
   - (* OFail *)
